@@ -1,9 +1,8 @@
 --------------------------- MODULE MC_OpacityName ---------------------------
 (* C14, file-name part: every name over a small alphabet up to length MaxLen  *)
 (* with its sanitised form, and the unit factors, exported for binding A.     *)
-EXTENDS OpacityCache, SequencesExt
+EXTENDS OpacityFiles, SequencesExt, FiniteSets, TLC, Json
 CONSTANTS Upper, Lower, Digit, Other, MaxLen
-NDisk(p, m) == 0
 VARIABLES phase, nm
 Alphabet == {[c |-> "U", s |-> x] : x \in Upper} \cup {[c |-> "l", s |-> x] : x \in Lower}
             \cup {[c |-> "d", s |-> x] : x \in Digit} \cup {[c |-> "x", s |-> x] : x \in Other}
@@ -16,8 +15,8 @@ Str(s) == [i \in 1..Len(s) |-> s[i].s]
 Idempotent == Sanitise(Sanitise(nm)) = Sanitise(nm)
 OnlyDrops  == Len(Sanitise(nm)) <= Len(nm) /\ \A i \in 1..Len(Sanitise(nm)) : Sanitise(nm)[i].c # "x"
 StartsUpper == Sanitise(nm) # <<>> => Sanitise(nm)[1].c = "U"
-NEmit == phase = "done" => PrintT(<<"NAME", ToJson([name |-> Str(nm), out |-> Str(Sanitise(nm))])>>)
-UEmit == phase = "done" /\ nm = CHOOSE x \in Names : TRUE =>
+NEmit == (phase = "done") => PrintT(<<"NAME", ToJson([name |-> Str(nm), out |-> Str(Sanitise(nm))])>>)
+UEmit == (phase = "done" /\ Len(nm) = 1 /\ nm[1].s = "H") =>
            PrintT(<<"UNIT", ToJson([Pa |-> PressureFactor("Pa"), bar |-> PressureFactor("bar"), atm |-> PressureFactor("atm"),
                                     mbar |-> PressureFactor("mbar"), exotransmit |-> XsecFactor("exotransmit"),
                                     pickle |-> XsecFactor("pickle"), hdf5 |-> XsecFactor("hdf5"),
